@@ -37,8 +37,9 @@ type c07Scenario struct {
 	Dawdle          int        `json:"handler_dawdle"`
 	AcrossReconnect bool       `json:"request_pending_across_reconnect,omitempty"`
 	FailingWrite    bool       `json:"last_request_write_fails_while_its_answer_arrives,omitempty"`
-	UnsolicitedWait bool       `json:"handler_of_an_unsolicited_result_waits_for_its_own_request,omitempty"` // client only: routes run on their own goroutines, so a handler may wait for an answer
-	HandlerIQ       int        `json:"handler_sends_iq"`                                                     // number of server requests whose handler issues a SendIQ of its own
+	UnsolicitedWait bool       `json:"handler_of_an_unsolicited_result_waits_for_its_own_request,omitempty"`   // client only: routes run on their own goroutines, so a handler may wait for an answer
+	BlockedExpire   bool       `json:"context_ends_while_the_write_is_blocked_then_the_write_fails,omitempty"` // a request whose write is held up by a peer that does not read, whose context ends meanwhile and whose write then fails (connection reset); the next session's request must still get its answer
+	HandlerIQ       int        `json:"handler_sends_iq"`                                                       // number of server requests whose handler issues a SendIQ of its own
 }
 
 type c07Resp struct {
@@ -63,7 +64,7 @@ func init() {
 		Real:  []string{"Client.SendIQ / Component.SendIQ", "Router.route pending-request lookup and delivery", "Router.NewIQResultRoute and its context watcher", "recv loops, per-packet route goroutines"},
 		Stub:  []string{"TCP (simnet)", "XMPP server (scripted model answering per plan)", "clock (synctest)", "goroutine scheduling (token scheduler, incl. PCT starvation of the caller)", "sync.RWMutex (equivalent shim)"},
 		Run:   runC07,
-		Reach: []string{"c07.answer_at_context_end", "c07.retry_with_same_id", "c07.peer_request_with_same_id", "c07.answered_across_reconnect", "c07.handler_sends_iq"},
+		Reach: []string{"c07.answer_at_context_end", "c07.retry_with_same_id", "c07.peer_request_with_same_id", "c07.answered_across_reconnect", "c07.handler_sends_iq", "c07.answered_after_blocked_write_expired"},
 	})
 }
 
@@ -79,6 +80,7 @@ func runC07(e *Engine, g G, o RunOpt) RunInfo {
 	sc.Dawdle = g.N("dawdle", 3)
 	sc.AcrossReconnect = !sc.Component && g.Pct("across-reconnect", 15)
 	sc.FailingWrite = !sc.AcrossReconnect && g.Pct("failing-write", 12)
+	sc.BlockedExpire = !sc.Component && !sc.AcrossReconnect && !sc.FailingWrite && g.Pct("blocked-expire", 12)
 	sc.UnsolicitedWait = !sc.Component && g.Pct("unsolicited-wait", 15)
 	if g.Pct("handler-iq", 30) {
 		sc.HandlerIQ = g.Range("handler-iq-n", 1, 3)
@@ -561,6 +563,70 @@ func runC07(e *Engine, g G, o RunOpt) RunInfo {
 						case <-time.After(10*time.Second + 37*time.Microsecond):
 							e.Yield("across.timeout")
 							e.Violate("C07", "response-missed-caller:across-reconnect", "request %s was pending across a reconnection; its answer arrived on the new connection but never reached the caller", id)
+						}
+					}
+				}
+			}
+		}
+		if sc.BlockedExpire && cw != nil && !conn.Dead {
+			// The peer stops reading; a request is written into the full window and blocks; its context
+			// ends while it is blocked (the pending entry is cleaned up); then the connection is reset
+			// and the write fails (the failure path cleans up once more). The bookkeeping of pending
+			// requests must have survived that: the request of the next session gets its answer.
+			conn.End.RecvWindow = 700
+			conn.PauseReads = true
+			iq, _ := stanza.NewIQ(stanza.Attrs{Type: stanza.IQTypeGet, Id: "qbx", To: SimDomain})
+			iq.Payload = &stanza.Version{Name: strings.Repeat("n", 5000)}
+			bctx, bcancel := context.WithTimeout(context.Background(), 2*time.Second+43*time.Microsecond)
+			bdone := false
+			var berr error
+			e.Go("blocked-sender", func() {
+				berr, _ = e.Call("SendIQ qbx (blocks)", func() error {
+					_, err := sender.SendIQ(bctx, iq)
+					return err
+				})
+				bdone = true
+			})
+			e.Sleep(6 * time.Second)
+			nd := countState(cw.Events, xmpp.StateDisconnected)
+			wasBlocked := !bdone
+			conn.End.Reset()
+			conn.PauseReads = false
+			e.WaitUntilFor("blocked-sender", time.Minute, func() bool { return bdone })
+			bcancel()
+			if wasBlocked && bdone && berr != nil && !e.WaitUntilFor("lost", time.Minute, func() bool { return countState(cw.Events, xmpp.StateDisconnected) > nd }) {
+				e.Sleep(time.Second)
+				rerr, _ := e.Call("Resume", cw.Client.Resume)
+				if rerr == nil && len(srv.Conns) == 2 {
+					conn = srv.Conns[1]
+					e.Sleep(100 * time.Millisecond)
+					id := "qby"
+					iq, _ := stanza.NewIQ(stanza.Attrs{Type: stanza.IQTypeGet, Id: id, To: SimDomain})
+					iq.Payload = &stanza.Version{}
+					ctx, cancel := context.WithCancel(context.Background())
+					cancels = append(cancels, cancelAt{at: e.Now() + 24*time.Hour, fn: cancel, id: id})
+					ctxEnd[id] = -1
+					var ch chan stanza.IQ
+					err, _ := e.Call("SendIQ "+id, func() error {
+						var err error
+						ch, err = sender.SendIQ(ctx, iq)
+						return err
+					})
+					if err == nil && ch != nil {
+						e.Sleep(50 * time.Millisecond)
+						raw, rs := resp(id, "result")
+						conn.Send(raw)
+						select {
+						case v, ok := <-ch:
+							e.Yield("blockedexpire.read")
+							if ok && v.From == rs.marker {
+								e.Probe("c07.answered_after_blocked_write_expired")
+							} else {
+								e.Violate("C07", "response-missed-caller:after-blocked-write", "request %s of the session after a request whose context ended during its blocked, then failing write: got %v (ok=%v), expected its answer %s", id, v.From, ok, rs.marker)
+							}
+						case <-time.After(10*time.Second + 37*time.Microsecond):
+							e.Yield("blockedexpire.timeout")
+							e.Violate("C07", "response-missed-caller:after-blocked-write", "request %s (the only pending one) of the session after a request whose context ended during its blocked, then failing write: its answer arrived and never reached the caller", id)
 						}
 					}
 				}
